@@ -1,22 +1,74 @@
 import DirectVerif.Driver.Common
 import DirectVerif.Model.Shift
+import DirectVerif.Model.Fft
 namespace DirectVerif.Driver.C01
 open DirectVerif DirectVerif.Driver
+
+def dtypeOfCode : Int → Fft.DType
+  | 0 => .float32 | 1 => .float64 | 2 => .float16 | 3 => .complex64 | 4 => .complex128 | _ => .other
+
+/-- `fft2` / `ifft2` of the unit impulse at complex position `pos` of a tensor of shape `shape`
+(the shape as passed, i.e. with the trailing 2 when `complex_input`).
+Answer: `ok <complex shape> | L num den | E…` — entry = `sqrt(num/den) · exp(-2πi E / L)`, `E = -1` for 0. -/
+def opFft (shape pos dims flags : List Int) (dt : Int) : String :=
+  match flags with
+  | [c, n, ci, inv] =>
+    let cfg : Fft.Cfg := ⟨c != 0, n != 0, ci != 0⟩
+    let plan := if inv != 0 then Fft.ifft2Plan else Fft.fft2Plan
+    match Fft.validate cfg dims plan ⟨nats shape, dtypeOfCode dt⟩ with
+    | .error e => "err " ++ e.name
+    | .ok _ =>
+      let cshape := if cfg.complexInput then (nats shape).dropLast else nats shape
+      let r := cshape.length
+      if pos.length ≠ r then "err BadOp" else
+      let off := Tensor.offset cshape (nats pos)
+      let data : List Fft.Sym := (List.range (prod cshape)).map fun i =>
+        if i = off then some (List.replicate r 0) else none
+      let x : Fft.SymT := ⟨⟨cshape, data⟩, 1, 1⟩
+      let B := Fft.symBackend (nats dims)
+      let y := if inv != 0 then Fft.ifft2 B cfg x else Fft.fft2 B cfg x
+      let lens := (nats dims).map fun d => cshape.getD d 1
+      let L := lens.foldl Nat.lcm 1
+      if y.t.data.any (· == Fft.symBad) then "err NotSparse" else
+      let es : List Int := y.t.data.map fun v =>
+        match v with
+        | none => (-1 : Int)
+        | some es =>
+          ((List.range r).foldl (fun (acc : Int) a => acc + es.getD a 0 * ((L / cshape.getD a 1 : Nat) : Int)) 0) % (L : Int)
+      okG [y.t.shape.map Int.ofNat, [(L : Int), (y.num : Int), (y.den : Int)], es]
+  | _ => "err BadOp"
+
+/-- Python axis indexing: negative axes count from the end; out of range is an `IndexError` -/
+def normDims (rank : Nat) (dims : List Int) : Option (List Nat) :=
+  dims.mapM fun d =>
+    let d' : Int := if d < 0 then d + (rank : Int) else d
+    if 0 ≤ d' ∧ d' < (rank : Int) then some d'.toNat else none
 
 def step (op : String) (gs : List (List Int)) : String :=
   match op, gs with
   | "roll", [shape, data, shifts, dims] =>
     match mkT shape data with
-    | some t => if shifts.length ≠ dims.length then "err ValueError" else okT (Shift.roll t shifts (nats dims))
+    | some t =>
+      if shifts.length ≠ dims.length then "err ValueError" else
+      match normDims t.shape.length dims with
+      | some ds => okT (Shift.roll t shifts ds)
+      | none => "err IndexError"
     | none => "err BadOp"
   | "fftshift", [shape, data, dims] =>
     match mkT shape data with
-    | some t => okT (Shift.fftshift t (nats dims))
+    | some t =>
+      match normDims t.shape.length dims with
+      | some ds => okT (Shift.fftshift t ds)
+      | none => "err IndexError"
     | none => "err BadOp"
   | "ifftshift", [shape, data, dims] =>
     match mkT shape data with
-    | some t => okT (Shift.ifftshift t (nats dims))
+    | some t =>
+      match normDims t.shape.length dims with
+      | some ds => okT (Shift.ifftshift t ds)
+      | none => "err IndexError"
     | none => "err BadOp"
+  | "fft", [shape, pos, dims, flags, [dt]] => opFft shape pos dims flags dt
   | _, _ => "err BadOp"
 
 end DirectVerif.Driver.C01
